@@ -15,7 +15,7 @@ import tempfile
 import time
 
 from . import kani, runner, vx
-from .props import PROPS, KANI, WITNESS_TESTS
+from .props import PROPS, KANI, WITNESS_TESTS, ENUM_TESTS
 
 VERIF = os.path.dirname(os.path.dirname(os.path.abspath(__file__)))
 
@@ -118,6 +118,16 @@ def replay_values(harness, values):
 def run_witness(name):
   spec = WITNESS_TESTS[name]
   sc = kani.Scratch("witness")
+  try:
+    sc.populate(patch_tracing=False)
+    return kani.run_witness_test(sc, os.path.join(VERIF, spec["file"]), append_to=spec.get("append_to"), test_filter=spec.get("test_filter"))
+  finally:
+    sc.cleanup()
+
+
+def run_enum(name):
+  spec = ENUM_TESTS[name]
+  sc = kani.Scratch("enum")
   try:
     sc.populate(patch_tracing=False)
     return kani.run_witness_test(sc, os.path.join(VERIF, spec["file"]), append_to=spec.get("append_to"), test_filter=spec.get("test_filter"))
@@ -334,6 +344,24 @@ def main(argv):
         tail = ""
     path = write_replay(pid, entry["name"], payload)
     violations.append((entry["name"], path, tail))
+
+  # ---- bounded exhaustive stand-ins: only when a unit they stand in for is undecided
+  for en in spec.get("enum_fallback", []):
+    es = ENUM_TESTS[en]
+    if not any(u.get("unit") == es["unit"] for u in undecided):
+      continue
+    rr = run_enum(en)
+    entry = {"name": "enum.%s" % en, "bound": es["bound"], "text": es["what"], "ms": None,
+             "verdict": "failed" if rr["failed"] else ("void" if rr["void"] else "passed")}
+    bounded.append(entry)
+    cmds.append(rr["cmd"])
+    if rr["failed"]:
+      payload = {"property": pid, "obligation": entry["name"], "function": ",".join(es["pairs_fn"]), "backend": "cargo test (bounded exhaustive stand-in; unit %s undecided)" % es["unit"],
+                 "bound": es["bound"], "replay_cmd": rr["cmd"], "replay_output": rr["output"][-3500:], "replay_failed_on_real_code": True,
+                 "verifier_output": "unit %s could not decide: %s" % (es["unit"], "; ".join((u.get("msg") or "")[:300] for u in undecided if u.get("unit") == es["unit"])),
+                 "note": "the failing input is named in the assertion message of the test (replay_output)"}
+      path = write_replay(pid, entry["name"], payload)
+      violations.append((entry["name"], path, ""))
 
   # ---- known findings still failing: exclude from obligation counts
   known_names = set()
